@@ -288,6 +288,10 @@ type ICase struct {
 	// between the field handlers and the final handler: the final handler's events are dropped and
 	// what the inner handlers add never reaches the outer logger
 	MutedInner bool `json:"muted_inner_handler,omitempty"`
+	// NestedAccess: a second AccessHandler further in, with a middleware between the two that writes
+	// 3 body bytes first: each reports what passed through it (outer: 200 and 3+n bytes; inner: the
+	// handler's own WriteHeader code and n bytes)
+	NestedAccess bool `json:"nested_access_handler,omitempty"`
 }
 
 type syncBuf struct {
@@ -374,6 +378,16 @@ func runIsolation(c *ICase) (string, bool) {
 	for i := len(c.Handlers) - 1; i >= 0; i-- {
 		h = handlerTable[c.Handlers[i]]()(h)
 	}
+	if c.NestedAccess {
+		h = hlog.AccessHandler(func(r *http.Request, status, size int, d time.Duration) {
+			hlog.FromRequest(r).Info().Str("me", r.Header.Get("X-Me")).Int("status", status).Int("size", size).Msg("access-inner")
+		})(h)
+		inner := h
+		h = http.HandlerFunc(func(w http.ResponseWriter, r *http.Request) {
+			w.Write([]byte("pre"))
+			inner.ServeHTTP(w, r)
+		})
+	}
 	h = hlog.AccessHandler(func(r *http.Request, status, size int, d time.Duration) {
 		hlog.FromRequest(r).Info().Str("me", r.Header.Get("X-Me")).Int("status", status).Int("size", size).Msg("access")
 	})(h)
@@ -459,7 +473,7 @@ func runIsolation(c *ICase) (string, bool) {
 		}
 		want := map[string]string{"url": rq.URL, "method": rq.Method, "request": rq.Method + " " + rq.URL, "remote": rq.Remote, "ip": hostOnly(rq.Remote), "ua": rq.UA,
 			"referer": rq.Referer, "proto": rq.Proto, "httpver": strings.TrimPrefix(rq.Proto, "HTTP/"), "custom": rq.Custom, "host": rq.Host, "hostnp": hostOnly(rq.Host)}
-		isAccess := f["message"] == "access"
+		isAccess := f["message"] == "access" || f["message"] == "access-inner"
 		for _, hn := range c.Handlers {
 			switch hn {
 			case "reqid":
@@ -513,7 +527,15 @@ func runIsolation(c *ICase) (string, bool) {
 				return fmt.Sprintf("request %s: unexpected field %q in %q", rq.ID, k, line), overlapped >= 2
 			}
 		}
-		if isAccess {
+		if isAccess && c.NestedAccess {
+			wantStatus, wantSize := 200, 3+len(rq.ID) // outer: the middleware's Write came first
+			if f["message"] == "access-inner" {
+				wantStatus, wantSize = 200+len(rq.ID)%5, len(rq.ID)
+			}
+			if f["status"] != fmt.Sprint(wantStatus) || f["size"] != fmt.Sprint(wantSize) {
+				return fmt.Sprintf("request %s: %s event reports status=%s size=%s, want %d/%d (two AccessHandlers, 3 bytes written between them)", rq.ID, f["message"], f["status"], f["size"], wantStatus, wantSize), overlapped >= 2
+			}
+		} else if isAccess {
 			if f["status"] != fmt.Sprint(200+len(rq.ID)%5) || f["size"] != fmt.Sprint(len(rq.ID)) {
 				return fmt.Sprintf("request %s: access event reports status=%s size=%s, want %d/%d", rq.ID, f["status"], f["size"], 200+len(rq.ID)%5, len(rq.ID)), overlapped >= 2
 			}
@@ -529,6 +551,9 @@ func runIsolation(c *ICase) (string, bool) {
 		if c.MutedInner {
 			wantN = 1 // the final handler logs through the muted inner logger: only the access event remains
 		}
+		if c.NestedAccess {
+			wantN++
+		}
 		if counts[r.ID] != wantN {
 			return fmt.Sprintf("request %s: %d events, want %d", r.ID, counts[r.ID], wantN), overlapped >= 2
 		}
@@ -539,7 +564,7 @@ func runIsolation(c *ICase) (string, bool) {
 func genICase(rt *rapid.T, maxReqs int) *ICase {
 	names := []string{"url", "method", "request", "remote", "ip", "ua", "referer", "proto", "httpver", "custom", "host", "hostnp", "reqid", "etag", "resphdr"}
 	c := &ICase{BaseCtx: rapid.IntRange(0, 3).Draw(rt, "basectx"), Events: rapid.IntRange(1, 3).Draw(rt, "events"),
-		SharedCtx: rapid.IntRange(0, 2).Draw(rt, "sharedctx") == 0, MutedInner: rapid.IntRange(0, 3).Draw(rt, "muted") == 0}
+		SharedCtx: rapid.IntRange(0, 2).Draw(rt, "sharedctx") == 0, MutedInner: rapid.IntRange(0, 3).Draw(rt, "muted") == 0, NestedAccess: rapid.IntRange(0, 2).Draw(rt, "nestedaccess") == 0}
 	perm := rapid.Permutation(names).Draw(rt, "perm")
 	c.Handlers = perm[:rapid.IntRange(1, len(perm)).Draw(rt, "nh")]
 	n := rapid.IntRange(2, maxReqs).Draw(rt, "nreq")
